@@ -39,3 +39,15 @@ Record guards := mkG {
 Inductive tmode := TKeepOrSet (* into_index_pack: keep the time, set it when missing *)
                  | TSet       (* into_index_pack_with_time: prune time *).
 Inductive effect := XErr | XPacks (m : tmode) | XDel (m : tmode) | XRemove.
+
+(* PackInfo *)
+Record pinfo := mkPI { pi_type : btype; pi_used_blobs : N; pi_unused_blobs : N; pi_used_size : N; pi_unused_size : N }.
+
+(* LimitOption *)
+Inductive limit := LUnlimited | LPercent (p : N) | LSize (s : N).
+
+(* u64 saturating_mul *)
+Definition sat_mul (a b : N) : N := N.min (a * b) 18446744073709551615.
+(* comparisons with a byte limit; None = u64::MAX = no limit *)
+Definition lim_ge (x : N) (l : option N) : bool := match l with None => false | Some v => N.leb v x end.  (* x >= l *)
+Definition lim_lt (x : N) (l : option N) : bool := match l with None => true | Some v => N.ltb x v end.   (* x < l *)
